@@ -63,7 +63,7 @@ RULE = (
 TRUSTED = [
     "time alignment is modelled at the sample-index level: photon streams lie on the info wave's sample grid; "
     "Slice[start:stop] of such a stream = drop/take (that is C01's theorem cont_slice_samples, not re-proved here)",
-    "float64 exactness of numpy.cumsum: photon totals stay below 2^53 (generated totals < 2^40)",
+    "float64 exactness of numpy.cumsum: photon totals stay below 2^53 (generated totals < 2^46)",
     "squeeze() is modelled for scans with at least two pixels on both axes (the property's quantifier); only the frame "
     "axis can then be squeezed away",
 ]
